@@ -399,6 +399,12 @@ def main(pid, tier, seed):
     iverd, ist = core.validate_traces('TrPTQ_I.tla', itraces) if itraces else ({}, {'states': 0, 'transitions': 0})
     drift = [(k, v) for k, v in iverd.items() if v[0] != 'ACCEPT']
 
+    # C02's grid is the grid the rule FILES define: the loader must turn every base-structure line into its variables (a case
+    # mask after every alpha variable) - every file of Loader.tla's model space through the real default load
+    grid_of_files = None
+    if pid == 'C02':
+        from . import check_loader
+        grid_of_files = check_loader.insertion_stage(verdict)
     verdict.matcher('C08-F4-restore-strict-parent',
                     lambda w: w.get('clause') == 'C08_repeat_only_ties')
     rc, n_viol, n_known = verdict.finish()
@@ -420,7 +426,7 @@ def main(pid, tier, seed):
         'impl_conformance': {'traces': len(itraces), 'states': ist.get('states', 0),
                              'result': 'drift' if drift else 'conforms', 'drift_examples': drift[:3]},
         'exhaustive': False, 'binding_selftest': selftest,
-        'known_findings_reproduced': n_known,
+        'known_findings_reproduced': n_known, 'grid_of_the_files': grid_of_files,
     }
     core.write_evidence(pid, tier, seed, 'model_checking', cov, time.time() - t0, violations=n_viol,
                         assumptions=['TLC', 'rank abstraction of floats (dense ranks of the reported probabilities)',
